@@ -259,6 +259,12 @@ def judge(prog, impl, tables, schedule, max_steps, bug_models=(), ref_kwargs=Non
         for b in bug_models:
             v2, _, _ = attempt({b: True})
             if v2 in ("ok", "pinned"):
+                if b == "rvltl":
+                    # attribute to the until-offset bug only if the emulation with that
+                    # one bug repaired no longer reproduces the implementation
+                    v3, _, _ = attempt({"rvltl": True, "rvltl_nobug": True})
+                    if v3 in ("ok", "pinned"):
+                        continue
                 finding = b
                 break
     return verdict, info, ref, finding
